@@ -1,4 +1,9 @@
 import PcfgVerif.Properties.LoaderCore
+import PcfgVerif.Lemmas.LoaderWF
+import PcfgVerif.Properties.ProbsCore
+import PcfgVerif.Lemmas.SoftFloatLemmas
+import PcfgVerif.Lemmas.RuleDirLemmas
+import PcfgVerif.Generated.RuleDir
 /-!
 # C07 — a saved ruleset means the same thing to every tool that loads it
 
@@ -59,5 +64,123 @@ theorem C07_lines (items : List (CPs × CPs)) (hc : ∀ it ∈ items, CleanValue
 /-- non-vacuity: a value with a trailing space, two values sharing a probability -/
 example : loadFromFile Pcfg.exParse Pcfg.exEqv (-1) (writeFile Pcfg.exItems) =
     some [⟨[[97, 98, 32], [99]], 50⟩, ⟨[[100]], 25⟩] := by rfl
+
+/-- a clean list file whose probabilities are non-increasing in file order is loaded into a non-empty list of
+non-empty groups with non-increasing probabilities: the loader turns a sorted file into a column that is
+well-formed in the sense of C01/C02/C08 (`WFStruct`) -/
+theorem C07_sorted_file_loads_wf (parseP : CPs → Option P) (eqv : P → P → Bool) (neg1 : P)
+    (heq_refl : ∀ a, eqv a a = true)
+    (R : P → P → Prop)
+    (hcompat : ∀ p q a b, eqv p a = true → eqv q b = true → R p q → R a b)
+    (items : List (CPs × CPs)) (hitems : items ≠ [])
+    (hc : ∀ it ∈ items, CleanValue it.1 ∧ CleanProb it.2)
+    (hp : ∀ it ∈ items, ∃ p, parseP it.2 = some p ∧ eqv p neg1 = false)
+    (hs : (items.filterMap fun it => parseP it.2).Pairwise R) :
+    ∃ gs, loadFromFile parseP eqv neg1 (writeFile items) = some gs ∧ gs ≠ [] ∧
+      (∀ g ∈ gs, g.values ≠ []) ∧ (gs.map (·.prob)).Pairwise R :=
+  loadFromFile_sorted parseP eqv neg1 heq_refl R hcompat items hitems hc hp hs
+
+/-- `calculate_probabilities` over binary64 (the same definition as `C06.sfQOps`) -/
+def sfQ : QOps Nat := ⟨0, (· + ·), SF.ratio, fun a b => decide (a ≥ b)⟩
+
+/-- **trainer → file → guesser, over binary64**: take any counter (values with natural counts, any order).
+The trainer writes `calculate_probabilities` of it (`count / total` correctly rounded, most frequent first) with
+the probability printed by `showP`; the guesser parses the text back with `parseP`.  If printing and parsing
+round-trip (`float(repr(x)) == x`, trusted) and the values are clean (what `check_valid` admits), then the loaded
+column is non-empty, every group is non-empty and the group probabilities are non-increasing for the binary64
+order — i.e. the column satisfies `WFStruct sfAlg`, the hypothesis of C01/C02/C08, for every counter. -/
+theorem C07_trained_column_wf (parseP : CPs → Option Nat) (showP : Nat → CPs) (neg1 : Nat)
+    (hround : ∀ p, parseP (showP p) = some p)
+    (counter : List (CPs × Nat)) (hne : counter ≠ [])
+    (hclean : ∀ it ∈ counter, CleanValue it.1) (hshow : ∀ p, CleanProb (showP p))
+    (hsent : ∀ it ∈ calcProbs sfQ counter, it.2 ≠ neg1) :
+    ∃ gs, loadFromFile parseP (fun a b => a == b) neg1
+        (writeFile ((calcProbs sfQ counter).map fun it => (it.1, showP it.2))) = some gs ∧
+      gs ≠ [] ∧ (∀ g ∈ gs, g.values ≠ []) ∧
+      (gs.map (·.prob)).Pairwise (fun a b => sfAlg.le b a = true) := by
+  have hsorted : (calcProbs sfQ counter).Pairwise fun a b => b.2 ≤ a.2 := by
+    unfold calcProbs
+    simp only
+    rw [List.pairwise_map]
+    have hs := mostCommon_sorted sfQ (by intro a b; simp [sfQ]; omega)
+      (by intro a b c h1 h2; simp [sfQ] at *; omega) counter
+    exact hs.imp (fun {a b} h => SF.ratio_mono _ (by simpa [sfQ] using h))
+  have hperm := calcProbs_perm sfQ counter
+  apply C07_sorted_file_loads_wf parseP (fun a b => a == b) neg1 (by intro a; simp)
+    (fun a b => sfAlg.le b a = true)
+  · intro p q a b h1 h2 h
+    simp at h1 h2; subst h1 h2; exact h
+  · intro h
+    have := congrArg List.length h
+    simp [calcProbs, mostCommon] at this
+    exact hne this
+  · intro it hit
+    obtain ⟨x, hx, rfl⟩ := List.mem_map.mp hit
+    refine ⟨?_, hshow _⟩
+    have : x.1 ∈ (calcProbs sfQ counter).map (·.1) := List.mem_map.mpr ⟨x, hx, rfl⟩
+    obtain ⟨y, hy, hxy⟩ := List.mem_map.mp (hperm.mem_iff.mp this)
+    rw [← hxy]; exact hclean y hy
+  · intro it hit
+    obtain ⟨x, hx, rfl⟩ := List.mem_map.mp hit
+    exact ⟨x.2, hround _, by simpa using hsent x hx⟩
+  · rw [List.filterMap_map]
+    have : (fun it : CPs × Nat => parseP (showP it.2)) = fun it => some it.2 := by
+      funext it; exact hround _
+    simp only [Function.comp_def, this]
+    rw [List.filterMap_eq_map', List.pairwise_map]
+    exact hsorted.imp (fun {a b} h => by simpa [sfAlg] using h)
+
+/-- non-vacuity of `C07_trained_column_wf`: its hypotheses are satisfiable (unary probability text `1…1`, a counter with
+a tie and a singleton; the sentinel is a value no quotient of these counts takes) -/
+example : ∃ gs, loadFromFile (fun s => if s.all (· == 0x31) && !s.isEmpty then some (s.length - 1) else none)
+      (fun a b => a == b) 7
+      (writeFile ((calcProbs sfQ [([0x61], 2), ([0x62], 1), ([0x63], 2)]).map
+        fun it => (it.1, List.replicate (it.2 + 1) 0x31))) = some gs ∧ gs ≠ [] ∧
+      (∀ g ∈ gs, g.values ≠ []) ∧ (gs.map (·.prob)).Pairwise (fun a b => sfAlg.le b a = true) := by
+  apply C07_trained_column_wf _ (fun p => List.replicate (p + 1) 0x31) 7
+  · intro p; simp
+  · simp
+  · intro it hit
+    simp only [List.mem_cons, List.not_mem_nil, or_false] at hit
+    rcases hit with rfl | rfl | rfl <;> (intro c hc; simp at hc; subst hc; decide)
+  · intro p
+    refine ⟨by simp, ?_⟩
+    intro c hc
+    have : c = 0x31 := by simpa using (List.mem_replicate.mp hc).2
+    subst this; decide
+  · intro it hit
+    have h5 : ∀ c, c ≤ 5 → SF.ratio c 5 ≠ 7 := by
+      intro c hc
+      have : c = 0 ∨ c = 1 ∨ c = 2 ∨ c = 3 ∨ c = 4 ∨ c = 5 := by omega
+      rcases this with rfl | rfl | rfl | rfl | rfl | rfl <;> decide +kernel
+    have hm := (calcProbs_mem sfQ [([0x61], 2), ([0x62], 1), ([0x63], 2)] it.1 it.2).mp (by simpa using hit)
+    obtain ⟨c, hc, hp⟩ := hm
+    have htot : totalCount sfQ [([0x61], 2), ([0x62], 1), ([0x63], 2)] = 5 := by decide
+    rw [hp, htot]
+    simp only [List.mem_cons, List.not_mem_nil, or_false, Prod.mk.injEq] at hc
+    apply h5
+    rcases hc with ⟨_, rfl⟩ | ⟨_, rfl⟩ | ⟨_, rfl⟩ <;> omega
+
+/-- **the file lists of `config.ini` name exactly the files that exist** (model half): after
+`save_indexed_counters` a folder holds exactly the names `create_filename_list` produces from the same counter, each once —
+for every previous content of the folder (training over an existing ruleset), every counter and every way of printing keys -/
+theorem C07_folder_is_filename_list {κ γ : Type} (name : κ → String) (suffix : String)
+    (old : List (String × γ)) (counters : List (κ × γ)) :
+    (∀ f, f ∈ (RuleDir.saveIndexed name suffix old counters).map (·.1) ↔
+      f ∈ RuleDir.filenameList name suffix counters) ∧
+    ((RuleDir.saveIndexed name suffix old counters).map (·.1)).Nodup :=
+  ⟨RuleDir.saveIndexed_names name suffix old counters, RuleDir.saveIndexed_nodup name suffix old counters⟩
+
+/-- (source half, re-proved against the current source on every run): every section of `config.ini` whose file list is
+computed takes it from the very counter that `save_pcfg_data` saves into that section's directory, with the same suffix; the
+fixed lists (`1.txt` of Years / Context) are the writer's fixed keys; the start section lists `grammar.txt`, which the writer
+saves (next to `raw_grammar.txt`, which no tool loads) -/
+theorem C07_config_sources :
+    Generated.RuleDir.configSuffix = Generated.RuleDir.writerSuffix ∧
+    (Generated.RuleDir.configSources.all fun e =>
+      e.1 == "Grammar" || Generated.RuleDir.writerSources.contains e) = true ∧
+    (Generated.RuleDir.configSources.contains ("Grammar", "names:grammar.txt") &&
+      Generated.RuleDir.writerSources.contains ("Grammar", "names:grammar.txt,raw_grammar.txt")) = true := by
+  decide
 
 end Pcfg.C07
